@@ -55,6 +55,27 @@ func hasBinary(f *file, fd *ast.FuncDecl, x string, op token.Token, y string) bo
 		}
 		return !found
 	})
+	if found || !expandHelpers {
+		return found
+	}
+	// fallback reading: the complementary test (`==` for `!=`, …) of an if/else or early return with
+	// swapped branches, or the operands the other way round
+	comp := map[token.Token]token.Token{token.EQL: token.NEQ, token.NEQ: token.EQL, token.LSS: token.GEQ,
+		token.GEQ: token.LSS, token.GTR: token.LEQ, token.LEQ: token.GTR}
+	ast.Inspect(fd, func(n ast.Node) bool {
+		be, ok := n.(*ast.BinaryExpr)
+		if !ok {
+			return !found
+		}
+		xs, ys := exprStr(f.fset, be.X), exprStr(f.fset, be.Y)
+		if xs == x && ys == y && be.Op == comp[op] {
+			found = true
+		}
+		if xs == y && ys == x && (be.Op == mirrorOp[op] || be.Op == mirrorOp[comp[op]]) {
+			found = true
+		}
+		return !found
+	})
 	return found
 }
 
